@@ -1,7 +1,7 @@
 import Snel.Model.Proto
 import Snel.Model.Shard
 /-! Line protocol for shard-machine histories (shared by the C01/C03/C04/C05/C11 drivers):
-`sys cap=<n> k=<n> t=<ntypes> | S k ctx ty | F | ADV | RUN | R | X | XM | D | C | LS`; the answer is the
+`sys cap=<n> k=<n> t=<ntypes> | S k ctx ty | F | ADV | RUN | R | X | XM | FF | D | C | LS`; the answer is the
 `;`-joined list of observations (`R` and `LS`). -/
 namespace Snel.ShardProto
 open Snel.Shard Snel.Proto
@@ -12,6 +12,7 @@ inductive Tok where
   | ls
   | compact
   | killMid
+  | flushFail
   deriving Repr
 
 def parseTok (t : String) : Option Tok :=
@@ -22,6 +23,7 @@ def parseTok (t : String) : Option Tok :=
   | ["RUN"] => some (.op .drain)
   | ["X"] => some (.op .crash)
   | ["XM"] => some .killMid
+  | ["FF"] => some .flushFail
   | ["D"] => some (.op .shutdown)
   | ["R"] => some .read
   | ["LS"] => some .ls
@@ -87,6 +89,7 @@ def answerWith (compactFn : Shard → Shard) (line : String) : String :=
           | .read => (s, loose, (if loose then showReadKeys s else showRead s nt) :: obs)
           | .ls => (s, loose, (if loose then showLsWal s else showLs s nt) :: obs)
           | .killMid => (crashMid s, loose, obs)
+          | .flushFail => (failHead s, loose, obs)
           | .compact => (compactFn (drainAll s), loose || decide (1 < nt), obs)) (Shard.init cap km, false, [])
         " ; ".intercalate obs.reverse
       | _, _, _, _ => "bad-op"
